@@ -426,6 +426,14 @@ def judge_load(chk, env, adapter_kind, text, stratum, record=True):
     return verdict, base, obs, m_obs, in_grammar
 
 
+def too_many(chk, cap=3):
+    """after a few recorded failures further ones are only counted (shrinking each would take minutes)"""
+    if len(chk.spec_failures) + len(chk.disagreements) >= cap:
+        chk.extra["further_failures_not_shrunk"] = chk.extra.get("further_failures_not_shrunk", 0) + 1
+        return True
+    return False
+
+
 # ----------------------------------------------------------------------------- strata
 def stratum_whitespace(chk):
     model = chk.oracle.query([(1, 0x110000)])[0]
@@ -466,7 +474,7 @@ def stratum_lines(chk, maxlen):
             if bad <= 3:
                 chk.spec_fail(dict(kind="line", line=l), o, s, "load_policy_line differs from spec_parse (split at "
                               "top-level commas, trim, IndexError exactly on leading bracket / underflow / blank key)")
-        elif o != m:
+        elif o != m and not too_many(chk):
             chk.disagree(dict(kind="line", line=l), o, m, where="load_policy_line vs Csv.parse_line")
     chk.extra.setdefault("strata", {})["exhaustive_lines"] = len(lines)
     idx = chk.rng.sample(range(len(lines)), 60)
@@ -502,7 +510,7 @@ def stratum_fields(chk, env, maxlen):
                 except Exception as ex:  # noqa
                     got = obs_err(ex)
                 chk.count(("field-rt", kind, f) if (f == "" or set(f) & SPECIAL) else None)
-                if got != [0, [rule]]:
+                if got != [0, [rule]] and not too_many(chk):
                     chk.spec_fail(dict(kind="roundtrip", adapter=kind, model="rbac4",
                                        policy={"p": [rule], "p2": [], "g": [], "g2": []}, stratum="exhaustive-fields"),
                                   got, [0, [rule]], "one-rule save -> load lost the rule")
@@ -535,6 +543,8 @@ def stratum_roundtrip(chk, env, n):
                 if is_f12(ad, pol, obs):
                     judge_roundtrip(chk, env, ad, mk, pol, st, record=True)
                     continue
+                if too_many(chk):
+                    continue
                 small = shrink_policy(pol, lambda c: judge_roundtrip(chk, env, ad, mk, c, st, record=False)[0] == verdict
                                       and not is_f12(ad, c, run_roundtrip(env, ad, mk, c)[2]))
                 judge_roundtrip(chk, env, ad, mk, small, st + "/shrunk", record=True)
@@ -562,7 +572,7 @@ def stratum_texts(chk, env, n):
             counts["in_grammar" if in_grammar else "outside_grammar"] += 1
             loaded = obs[0] == 0 and any(a[2] for a in obs[1])
             chk.count((ad, text) if loaded else None)
-            if verdict != "ok":
+            if verdict != "ok" and not too_many(chk):
                 small = shrink_text(text, lambda c: judge_load(chk, env, ad, c, st, record=False)[0] == verdict)
                 judge_load(chk, env, ad, small, st + "/shrunk", record=True)
             elif len(reqs) < 60:
